@@ -1,16 +1,10 @@
 (* Extraction of the executable model and the boolean checkers to OCaml.
-   Only ExtrOcamlBasic and ExtrOcamlString directives are used. *)
-From Coq Require Import List Arith String Ascii.
+   Only the directives of ExtrOcamlBasic and ExtrOcamlString are used.
+   Each Ex*.v file defines the entry points of one group of properties;
+   the single Extraction command below lists them all. *)
 From Coq Require Extraction ExtrOcamlBasic ExtrOcamlString.
-Require Import TT.Model.Base TT.Model.Topo TT.Model.Kahn TT.Spec.P20.
+Require Import TT.Extract.ExC20.
 Extraction Language OCaml.
 
-(* C20, nodes are natural numbers *)
-Definition c20_topo (g : Topo.graph nat) (req : list nat) : option (list nat) :=
-  topo_sort (S (List.length (universe g req))) g req.
-Definition c20_topo_ok (g : Topo.graph nat) (req out : list nat) : bool := topo_ok_b g req out.
-Definition c20_kahn (order : list nat) (deps : list (nat * nat)) : Kahn.kres nat := kahn order deps.
-Definition c20_kahn_ok (ns : list nat) (deps : list (nat * nat)) (res : option (list nat)) : bool :=
-  kahn_ok_b ns deps res.
-
-Extraction "tt_model.ml" c20_topo c20_topo_ok c20_kahn c20_kahn_ok.
+Extraction "tt_model.ml"
+  c20_topo c20_topo_ok c20_kahn c20_kahn_ok.
